@@ -63,12 +63,13 @@ def stepSt (d : Defects) (tcp : Bool) (σ : St) : List String → Option St
     | none => none
     | some k =>
       match nthRegistered σ k with
-      | none => if ["remote", "local", "stall"].contains kind then some σ else none
+      | none => if ["remote", "local", "stall", "slowclose"].contains kind then some σ else none
       | some c =>
         (match kind with
          | "remote" => some (act d σ [.peerClose c])
          | "local" => some (act d σ [.localClose c])
          | "stall" => some (settle d (run d (timePasses d σ) [.peerClose c]))
+         | "slowclose" => some (settle d (run d (timePasses d σ) [.localClose c]))   -- up to a minute passes, then a local close whose teardown is slow
          | _ => none)
   | ["wait"] => some (settle d (timePasses d σ))
   | ["cancel"] =>
